@@ -54,6 +54,10 @@ ASSUMPTIONS = [
     "counted (lenient_dispatch/*); valid messages with optional OSC 1.0 type tags "
     "(N I h S ...) may be delivered exactly or discarded, never altered; valid "
     "nesting deeper than 300 bundles may be dropped as a whole",
+    "registry mechanics are exercised on fresh subclasses (own tables, no library "
+    "actions) AND on the library's real CmdPeriod/StartUp/ShutDown and ServerBoot/"
+    "ServerTree/ServerQuit holding actions at the same time (library-owned actions "
+    "stay registered and are not judged; remove_all() is not used on the real ones)",
     "MidiFunc (not OSC) is exercised for coverage of the shared dispatcher code "
     "only; its disagreements are counters observed_midi/*, never a verdict "
     "(proposed_fixes/C18-midi-dispatch.md is a note for the maintainer)",
@@ -83,6 +87,7 @@ MIN_COUNTERS = {
               'order_pairs_checked': 200, 'one_shots_fired': 100,
               'in_callback_ops_total': 100, 'messages_shorter_than_template': 50,
               'injected_callback_faults': 300, 'registry_removed_before_its_turn': 200,
+              'registry_real_runs_with_actions_elsewhere': 2000,
               'registry_injected_faults': 1000, 'cmdperiod_residue_checks': 500,
               'fuzz_valid_optional_type_tags': 200, 'midi_messages': 5000,
               'midi_one_shots_fired': 300, 'tcp_frames': 300,
@@ -96,6 +101,7 @@ MIN_COUNTERS = {
                  'in_callback_ops_total': 3000,
                  'injected_callback_faults': 8000,
                  'registry_removed_before_its_turn': 5000,
+                 'registry_real_runs_with_actions_elsewhere': 50000,
                  'registry_injected_faults': 50000, 'cmdperiod_residue_checks': 30000,
                  'fuzz_valid_optional_type_tags': 10000, 'midi_messages': 200000,
                  'midi_one_shots_fired': 10000, 'tcp_frames': 10000,
